@@ -37,15 +37,15 @@ Definition s_faxes_of (tab : list sentry) (j : nat) : list key :=
 Definition s_out_of (tab : list sentry) (j : nat) (rho : row) : val :=
   match nth_error tab j with Some e => s_out e rho | None => VList [] end.
 
-Fixpoint sem_args (tab : list sentry) (n f : nat) (fields : list binding) (rho : row) : list val :=
+Fixpoint sem_args (tab : list sentry) (n : nat) (nd : node) (f : nat) (fields : list binding) (rho : row) : list val :=
   match fields with
   | [] => []
   | b :: r =>
       (match b with
        | BConst z => VInt z
-       | BSplit vs => VInt (nth (match lookup rho (n, f) with Some i => i | None => 0 end) vs 0%Z)
-       | BUp j => s_out_of tab j rho
-       end) :: sem_args tab n (S f) r rho
+       | BSplit vs => VInt (nth (match lookup rho (n, leader_of nd f) with Some i => i | None => 0 end) vs 0%Z)
+       | BUp j => outsel (osel_of nd f) (s_out_of tab j rho)
+       end) :: sem_args tab n nd (S f) r rho
   end.
 
 Definition up_axes (tab : list sentry) (fields : list binding) : list key :=
@@ -54,7 +54,7 @@ Definition up_axes (tab : list sentry) (fields : list binding) : list key :=
 Definition spec_entry (wf : workflow) (tab : list sentry) (n : nat) (nd : node) : sentry :=
   let axes := up_axes tab (n_fields nd) ++ map (fun f => (n, f)) (n_split nd) in
   let faxes := filter (fun k => negb (memk k (n_comb nd))) axes in
-  let sem := fun rho => VTag n (sem_args tab n 0 (n_fields nd) rho) in
+  let sem := fun rho => VTag n (sem_args tab n nd 0 (n_fields nd) rho) in
   {| s_axes := axes; s_faxes := faxes; s_sem := sem;
      s_out := fun rho => if is_nil (n_comb nd) then sem rho
                          else VList (map sem (filter (agree faxes rho) (box wf axes))) |}.
@@ -82,8 +82,6 @@ Definition ups (tab : list sentry) (fields : list binding) : list nat :=
   fold_left (fun a b => match b with
                         | BUp j => if is_nil (s_faxes_of tab j) || memn j a then a else a ++ [j]
                         | _ => a end) fields [].
-Definition node_at (wf : workflow) (j : nat) : node :=
-  nth j wf {| n_fields := []; n_split := []; n_comb := [] |}.
 Definition parents (wf : workflow) (tab : list sentry) (j : nat) : list nat := ups tab (n_fields (node_at wf j)).
 Definition disjointk (a b : list key) : bool := forallb (fun k => negb (memk k b)) a.
 
@@ -112,10 +110,11 @@ Definition node_wf (n : nat) (e : sentry) (nd : node) : bool :=
   forallb (fun b => match b with BUp j => Nat.ltb j n | _ => true end) (n_fields nd)
   && nodupk (map (fun f => (n, f)) (n_split nd))
   && forallb (fun fb => match snd fb with
-                        | BSplit _ => memn (fst fb) (n_split nd)
+                        | BSplit _ => memn (leader_of nd (fst fb)) (n_split nd)
                         | _ => negb (memn (fst fb) (n_split nd)) end)
              (combine (seq 0 (List.length (n_fields nd))) (n_fields nd))
   && forallb (fun f => Nat.ltb f (List.length (n_fields nd))) (n_split nd)
+  && forallb (fun p => match nth_error (n_fields nd) (fst p) with Some (BSplit _) => true | _ => false end) (n_zip nd)
   && nodupk (n_comb nd) && forallb (fun k => memk k (s_axes e)) (n_comb nd).
 
 Definition on_nodes (wf : workflow) (p : nat -> sentry -> node -> bool) : bool :=
@@ -131,3 +130,27 @@ Definition c03_domain (wf : workflow) : bool :=
 (* the same plus the relay pattern: outside it the unchanged code is known to misbehave (F03) *)
 Definition c03_aligned (wf : workflow) : bool :=
   wf_ok wf && share_class wf.
+
+(* ---------- zip groups, both outputs ---------- *)
+Definition zip_len_ok (wf : workflow) : bool := forallb zip_ok_node wf.
+(* remove_inp_from_splitter_rpn is known (C02 / F02) to mishandle an inner pair that stays when fields around it
+   are combined; the model does not reproduce that: a node with a combiner keeps no zip group open *)
+Definition has_followers (wf : workflow) (k : key) : bool :=
+  existsb (fun p => Nat.eqb (snd p) (snd k)) (n_zip (node_at wf (fst k))).
+Definition zipcomb_class (wf : workflow) : bool :=
+  on_nodes wf (fun _ e nd => is_nil (n_comb nd) || negb (existsb (has_followers wf) (s_faxes e))).
+(* the combiner names whole zip groups.  Naming only some fields of a group still combines the whole group at
+   run time (combiner_all), but splitter_rpn_final / depth() used while the workflow is constructed only remove the
+   named fields: downstream nodes are wired against a stale final splitter (known finding F03y) *)
+Definition group_members (wf : workflow) (k : key) : list key :=
+  let nd := node_at wf (fst k) in
+  let l := leader_of nd (snd k) in
+  (fst k, l) :: map (fun p => (fst k, fst p)) (filter (fun p => Nat.eqb (snd p) l) (n_zip nd)).
+Definition comb_closed_class (wf : workflow) : bool :=
+  forallb (fun nd => forallb (fun k => forallb (fun m => memk m (n_comb nd)) (group_members wf k)) (n_comb nd)) wf.
+(* inner splitters: zipped fields of different length are rejected (None) *)
+Definition spec_run2 (wf : workflow) : option (list val) :=
+  if zip_len_ok wf then Some (outs2 (spec_run (normalize wf))) else None.
+(* the class of C03_partial2 *)
+Definition c03_class2 (wf : workflow) : bool :=
+  c03_aligned (normalize wf) && zip_len_ok wf && zipcomb_class (normalize wf) && comb_closed_class wf.
